@@ -38,6 +38,7 @@ func main() {
 		rep.Merge(suiteIfaceMembers(*tier, *seed))
 	case "C16":
 		rep = suiteRecompose(*tier, *seed, *model)
+		rep.Merge(suiteRecomposeDirected(*tier, *seed))
 	case "C18":
 		rep = suiteConvert(*tier, *seed, *model)
 	case "C19":
